@@ -251,3 +251,81 @@ func callsTo(fn *ssa.Function, target *ssa.Function) []ssa.CallInstruction {
 	}
 	return res
 }
+
+// pathExpr renders an SSA value as an access path over parameters ("b.current.hash"),
+// looking through loads, field selections, conversions and static calls.
+func pathExpr(v ssa.Value) string {
+	switch x := v.(type) {
+	case *ssa.Parameter:
+		return x.Name()
+	case *ssa.FreeVar:
+		return x.Name()
+	case *ssa.Const:
+		if x.Value == nil {
+			return "nil"
+		}
+		return x.Value.ExactString()
+	case *ssa.Global:
+		return "global:" + x.Name()
+	case *ssa.UnOp:
+		if x.Op == token.MUL {
+			if al, ok := x.X.(*ssa.Alloc); ok {
+				// spilled parameter: local copy stored exactly once from a parameter
+				var src ssa.Value
+				n := 0
+				for _, ref := range *al.Referrers() {
+					if st, ok := ref.(*ssa.Store); ok && st.Addr == al {
+						n++
+						src = st.Val
+					}
+				}
+				if prm, ok := src.(*ssa.Parameter); ok && n == 1 {
+					return prm.Name()
+				}
+			}
+			s := pathExpr(x.X)
+			return strings.TrimPrefix(s, "&")
+		}
+		return x.Op.String() + pathExpr(x.X)
+	case *ssa.FieldAddr:
+		st := deref(x.X.Type()).Underlying().(*types.Struct)
+		return "&" + strings.TrimPrefix(pathExpr(x.X), "&") + "." + st.Field(x.Field).Name()
+	case *ssa.Field:
+		st := x.X.Type().Underlying().(*types.Struct)
+		return pathExpr(x.X) + "." + st.Field(x.Field).Name()
+	case *ssa.IndexAddr:
+		return "&" + strings.TrimPrefix(pathExpr(x.X), "&") + "[" + pathExpr(x.Index) + "]"
+	case *ssa.Index:
+		return pathExpr(x.X) + "[" + pathExpr(x.Index) + "]"
+	case *ssa.Convert:
+		return pathExpr(x.X)
+	case *ssa.ChangeType:
+		return pathExpr(x.X)
+	case *ssa.ChangeInterface:
+		return pathExpr(x.X)
+	case *ssa.MakeInterface:
+		return pathExpr(x.X)
+	case *ssa.Extract:
+		return pathExpr(x.Tuple) + fmt.Sprintf("#%d", x.Index)
+	case *ssa.Alloc:
+		return "alloc:" + x.Comment
+	case *ssa.Call:
+		var args []string
+		for _, a := range x.Call.Args {
+			args = append(args, pathExpr(a))
+		}
+		name := "?"
+		if f := x.Call.StaticCallee(); f != nil {
+			name = f.Name()
+		} else if x.Call.IsInvoke() {
+			name = x.Call.Method.Name()
+			args = append([]string{pathExpr(x.Call.Value)}, args...)
+		}
+		return name + "(" + strings.Join(args, ",") + ")"
+	case *ssa.BinOp:
+		return "(" + pathExpr(x.X) + x.Op.String() + pathExpr(x.Y) + ")"
+	case *ssa.Phi:
+		return "phi:" + x.Comment
+	}
+	return v.Name()
+}
